@@ -316,6 +316,18 @@ class Normalizer(ast.NodeTransformer):
     # ------------------------------------------------------------------ N10: a, b = x, y  ->  a = x ; b = y
     def visit_Assign(self, node):
         self.generic_visit(node)
+        # N24: (t1, t2, t3) = (E(x) for x in (a, b, c))   ->   the tuple (E(a), E(b), E(c))   (then N10 below)
+        if len(node.targets) == 1 and isinstance(node.targets[0], (ast.Tuple, ast.List)) \
+                and isinstance(node.value, (ast.GeneratorExp, ast.ListComp)) and len(node.value.generators) == 1:
+            g = node.value.generators[0]
+            if isinstance(g.target, ast.Name) and not g.ifs and not g.is_async and isinstance(g.iter, (ast.Tuple, ast.List)) \
+                    and len(g.iter.elts) == len(node.targets[0].elts) and all(_simple(e) for e in g.iter.elts) \
+                    and not any(isinstance(x, (ast.NamedExpr, ast.Lambda, ast.Yield)) for x in ast.walk(node.value.elt)):
+                vals = [_Subst({g.target.id: e}).visit(copy.deepcopy(node.value.elt)) for e in g.iter.elts]
+                node = ast.copy_location(ast.Assign(targets=node.targets, value=ast.Tuple(elts=vals, ctx=ast.Load()),
+                                                    type_comment=None), node)
+                ast.fix_missing_locations(node)
+                self.count += 1
         if len(node.targets) == 1 and isinstance(node.targets[0], (ast.Tuple, ast.List)) \
                 and isinstance(node.value, (ast.Tuple, ast.List)) \
                 and len(node.targets[0].elts) == len(node.value.elts) \
@@ -327,7 +339,19 @@ class Normalizer(ast.NodeTransformer):
             # attribute targets: no value may read a field of that name (x.a, x.b = x.b, x.a must stay parallel)
             tattrs = {t.attr for t in node.targets[0].elts if isinstance(t, ast.Attribute)}
             vattrs = {x.attr for v in node.value.elts for x in ast.walk(v) if isinstance(x, ast.Attribute)}
-            pure_vals = all(not isinstance(x, ast.Call) for v in node.value.elts for x in ast.walk(v)) or not tattrs
+            towner_names = {x.id for t in node.targets[0].elts if isinstance(t, ast.Attribute)
+                            for x in ast.walk(t.value) if isinstance(x, ast.Name)}
+
+            def harmless_call(c):
+                # copy.deepcopy(x, memo) / copy.copy(x) / pure builtins whose arguments do not involve the objects written
+                fn = c.func
+                nm = fn.attr if isinstance(fn, ast.Attribute) else (fn.id if isinstance(fn, ast.Name) else '')
+                ok_fn = nm in ('deepcopy', 'copy') and (isinstance(fn, ast.Name) or (
+                    isinstance(fn.value, ast.Name) and fn.value.id == 'copy')) or (isinstance(fn, ast.Name) and fn.id in PURE_CALLS)
+                return ok_fn and not any(isinstance(x, ast.Name) and x.id in towner_names
+                                         for a in list(c.args) + [k.value for k in c.keywords] for x in ast.walk(a))
+            pure_vals = all(not isinstance(x, ast.Call) or harmless_call(x)
+                            for v in node.value.elts for x in ast.walk(v)) or not tattrs
             if not (tnames & vnames) and (not tattrs or (len(node.targets[0].elts) == 1 or
                                                           not (tattrs & vattrs) or
                                                           self._distinct_owners(node))) and pure_vals:
